@@ -458,6 +458,16 @@ func (c *EvalCtx) evalSel(e *ESel) Val {
 	if x.K != KScalar || x.T == nil {
 		c.fail("selector %s on non-reference", e.F)
 	}
+	if types.IsInterface(x.T) {
+		// a quantified variable of interface type ranges over the references such values hold
+		tkey := typeKey(x.T)
+		if tc := eng.cs.Types[tkey]; tc != nil {
+			if g := tc.Ghost[e.F]; g != nil {
+				return c.loadGhost(x.S, tkey, g)
+			}
+		}
+		c.fail("interface type %s has no ghost field %s", tkey, e.F)
+	}
 	pt, ok := x.T.Underlying().(*types.Pointer)
 	if !ok {
 		c.fail("selector %s on non-pointer %v", e.F, x.T)
@@ -791,7 +801,12 @@ func (c *EvalCtx) evalCall(e *ECall) Val {
 		if c.old == nil {
 			c.fail("fresh() needs an old state")
 		}
-		return boolVal("(>= " + v.S + " " + c.old.brk + ")")
+		nb := c.p.brk
+		if sn := c.snap(); sn != nil {
+			nb = sn.brk
+		}
+		// allocated during the call: at or above the entry frontier and below the current one
+		return boolVal("(and (>= " + v.S + " " + c.old.brk + ") (< " + v.S + " " + nb + "))")
 	case "allocated":
 		v := c.eval(e.Args[0])
 		b := c.p.brk
